@@ -199,13 +199,21 @@ class World:
         self.live = [o for _, o in objs]          # live object table; index = object id in op descriptions
         self.labels = [lb for lb, _ in objs]
         self.n0 = len(self.live)
+        self.passed = []
+        for nm_ in ("mean", "cov", "prec", "rate", "shape", "bogus"):      # names used by the malformed stream
+            self.dims.setdefault(nm_, 1)
 
     # -- helpers
     def param_names(self, obj):
         return list(obj.get_parameter_names()) if hasattr(obj, "get_parameter_names") else []
 
     def kw(self, names, k):
-        return {nm: val_for(nm, self.dims[nm], k) for nm in names}
+        d_ = {nm: val_for(nm, self.dims[nm], k) for nm in names}
+        self.passed.append((d_, {nm: v.copy() for nm, v in d_.items()}))      # to detect in-place modification of arguments
+        return d_
+
+    def mutated_arguments(self):
+        return [nm for d_, c_ in self.passed for nm in d_ if not np.array_equal(d_[nm], c_[nm])]
 
     def run_op(self, op):
         """Execute one op; returns ("obj", object) | ("val", canonical value)."""
@@ -420,6 +428,9 @@ def plan_sequence(cuqi, rng, graph, variant, nops, force=None):
             op = script.pop(0)
         else:
             i = rng.randrange(len(P.live))
+            jds = [j for j, obj_d in enumerate(P.live) if isinstance(obj_d, JD)]
+            if jds and rng.random() < 0.3:
+                i = rng.choice(jds)       # joints are re-conditioned level by level (intermediate joints share evaluated densities)
             obj = P.live[i]
             if isinstance(obj, Model):
                 cands = [j for j, obj_d in enumerate(P.live) if isinstance(obj_d, Dist) and not isinstance(obj_d, JD)
@@ -457,6 +468,10 @@ def plan_sequence(cuqi, rng, graph, variant, nops, force=None):
                         sub = list(names)
                     else:
                         sub = [nm for nm in names if rng.random() < 0.5] or [rng.choice(names)]
+                    if rng.random() < 0.1:
+                        # malformed stream: a keyword that is no parameter of this object (refusal clauses)
+                        bad = [nm for nm in ["mean", "cov", "rate", "bogus"] + sorted(P.dims) if nm not in names and nm not in sub]
+                        sub.append(rng.choice(bad))
                     rng.shuffle(sub)
                     op = {"op": "cond", "i": i, "names": sub, "k": k}
                 elif kind == "condpos":
@@ -693,7 +708,7 @@ def execute_with_snapshots(cuqi, plan):
             values[k] = r[1]
         ha = S.heap(roots)
         steps.append({"k": k, "op": op, "before": hb, "after": ha, "n_before": n_before, "res": res_loc,
-                      "made": r[0] == "obj", "cls": type(W.live[op["i"]]).__name__ if "i" in op else "JointDistribution",
+                      "made": r[0] == "obj", "err": (r[1] if r[0] == "val" and isinstance(r[1], list) and r[1][:1] == ["err"] else None), "cls": type(W.live[op["i"]]).__name__ if "i" in op else "JointDistribution",
                       "kwargs": {nm: S.enc(val_for(nm, W.dims[nm], op["k"])) for nm in op.get("names", []) if nm in W.dims} if op["op"] in ("cond", "condpos") else {}})
         hb = ha
     return values, steps, W, S
@@ -811,7 +826,9 @@ def classify_failure(cuqi, plan, target):
     if cop["op"] in ("cond", "condpos") and operand_cls in ("JointDistribution", "MultipleLikelihoodPosterior", "_StackedJointDistribution") \
             and changed == {"_constant"} and not not_inplace_array:
         return SIG_CONST, c
-    if changed == {"_geometry"}:
+    if changed == {"_geometry"} and cop["op"] not in ("cond", "condpos", "tolik"):
+        # the known class: an operation that READS geometry/dim (evaluation, repr/dim, model application, joint construction,
+        # sampler bookkeeping) caches the lazily inferred default geometry; conditioning itself must never do that
         return SIG_GEOM, c
     return "%s:%s|writes:%s" % (cop["op"], operand_cls, ",".join(sorted(changed)) or "?"), c
 
@@ -853,9 +870,21 @@ def model_kw(op, W, S, st):
     return [(k, st["kwargs"][nm]) for k, nm in zip(keys, names)]
 
 
+MODELLED_REFUSALS = ("is not a mutable, conditioning variable or parameter name", "is not a conditioning variable of this distribution",
+                     "Likelihood must only have one parameter", "Every density parameter must have a distribution")
+
+
 def model_step_expr(st, plan, W, S, hints):
     op = st["op"]
-    if not st["made"] or plan["graph"] == "reggauss":
+    if plan["graph"] == "reggauss":
+        return None
+    if not st["made"]:
+        # refusal outcomes: when the implementation refused with one of the refusals the model knows, the model must refuse too
+        if op["op"] in ("cond", "condpos") and st.get("err") and any(m in st["err"][2] for m in MODELLED_REFUSALS) \
+                and st["err"][1] == "ValueError":
+            i_loc = S.locs[id(W.live[op["i"]])]
+            kws = clist(["(%s, %s)" % (cstr(k), v) for k, v in model_kw(op, W, S, st)])
+            return "check_refused inplace_constant %s %s %s %s" % (hints, cheap(st["before"]), cnat(i_loc), kws)
         return None
     kind = op["op"]
     hb, ha = st["before"], st["after"]
@@ -872,6 +901,21 @@ def model_step_expr(st, plan, W, S, hints):
     return None
 
 
+EVAL_OPS = ("logd", "grad", "sample", "misc", "gibbs", "mh", "fp")
+
+
+def frame_expr(st, inline=False):
+    """FRAME case of one operation.  Evaluation operations must stay inside the modelled getter footprint (check_eval*),
+    object-producing ones inside the frame relation.  The strict checks are the hypotheses of C11_frame_g; the `_code` forms
+    additionally allow what the code as it stands does: the lazy default-geometry step on an object with unresolved
+    parameters (open finding) -- used only when an old object's geometry slot was observed to change."""
+    hb, ha = st["before"], st["after"]
+    lazy = any(dict(_fields(a)).get("_geometry") != dict(_fields(b)).get("_geometry") for a, b in zip(hb, ha))
+    ev = st["op"]["op"] in EVAL_OPS
+    fn = ("check_eval" if ev else "check_frame_code") if lazy else ("check_eval_g" if ev else "check_frame_g")
+    return "%s inplace_constant %s %s" % (fn, cheap(hb), cheap(ha)), ("/lazy-geometry" if lazy else "")
+
+
 def cases_for_plan(cuqi, plan, with_heap=True):
     """All cases of one interleaving: one TWIN case (behavioural oracle), FRAME + STEP cases per operation."""
     cases = []
@@ -883,6 +927,8 @@ def cases_for_plan(cuqi, plan, with_heap=True):
         sig, culprit = classify_failure(cuqi, plan, tgt)
         fail = "sig=%s; value %s differs from the value obtained without the intervening operations: %s; culprit op #%s %s; %d value(s) affected" % (
             sig, tgt, json.dumps(det, default=str)[:500], culprit, json.dumps(plan["ops"][culprit]) if culprit is not None else "?", len(bad))
+    if not fail and W.mutated_arguments():
+        fail, sig = "sig=C11|argument-array-modified-in-place; arrays passed as conditioning / evaluation values were modified: %s" % W.mutated_arguments(), "C11|argument-array-modified-in-place"
     cases.append(Case(expr="true", meta={"kind": "twin", "plan": plan}, cell="twin/" + plan["graph"], kind="DECISION",
                       impl_fail=fail, signature=sig))
     if not with_heap:
@@ -891,12 +937,13 @@ def cases_for_plan(cuqi, plan, with_heap=True):
     for st in steps:
         op = st["op"]
         meta = {"kind": "frame", "plan": {**plan, "ops": plan["ops"][:st["k"] + 1]}, "step": st["k"]}
-        expr = "check_frame inplace_constant %s %s" % (cheap(st["before"]), cheap(st["after"]))
-        cases.append(Case(expr=expr, meta=meta, cell="frame/%s/%s" % (op["op"], st["cls"]), kind="DECISION",
+        expr, cellx = frame_expr(st)
+        cases.append(Case(expr=expr, meta=meta, cell="frame/%s/%s%s" % (op["op"], st["cls"], cellx), kind="DECISION",
                           trivial=(not st["made"] and op["op"] in ("cond", "condpos", "tolik", "apply", "mkjoint"))))
         e2 = model_step_expr(st, plan, W, S, hints)
         if e2:
-            cases.append(Case(expr=e2, meta={**meta, "kind": "step"}, cell="step/%s/%s" % (op["op"], st["cls"]), kind="DECISION"))
+            cases.append(Case(expr=e2, meta={**meta, "kind": "step"}, kind="DECISION",
+                              cell=("step/%s/%s" if st["made"] else "refused/%s/%s") % (op["op"], st["cls"])))
     return cases, steps
 
 
@@ -917,7 +964,7 @@ def run(ctx):
 
     # ---- interleavings -----------------------------------------------------------------------------------------------
     nseq = ctx.n(16, 150)
-    nops = ctx.n(12, 30)
+    nops = ctx.n(12, 40)
     INTERN.names.clear()
     INTERN.active = True
     plans = list(fixed_plans(cuqi))
@@ -1041,7 +1088,7 @@ def replay(ctx, meta):
         st = steps[m["step"]]
         hints = class_hints(cuqi, S)
         if m["kind"] == "frame":
-            term = "check_frame inplace_constant %s %s" % (cheap(st["before"]), cheap(st["after"]))
+            term = frame_expr(st)[0]
         else:
             term = model_step_expr(st, plan, W, S, hints)
         print("model side (Coq): %s" % (term[:300] + " ..."))
@@ -1079,6 +1126,17 @@ def fixed_plans(cuqi):
         {"op": "gibbs", "i": 6, "iface": "new", "Ns": 2, "seed": 3, "makes": False},
         {"op": "gibbs", "i": 6, "iface": "legacy", "Ns": 2, "seed": 3, "makes": False},
         {"op": "logd", "i": 6, "names": ["d", "l", "x"], "k": 1, "makes": False},
+    ]})
+    # level-by-level conditioning: the intermediate joint shares its EvaluatedDensity factors with the joints made from it
+    P.append({"graph": "hier", "variant": 1, "n0": 6, "ops": [
+        {"op": "cond", "i": 5, "names": ["d"], "k": 0, "makes": True},            # 6: joint with an evaluated density
+        {"op": "logd", "i": 6, "names": ["l", "x", "y"], "k": 0, "makes": False},
+        {"op": "cond", "i": 6, "names": ["l", "y"], "k": 1, "makes": True},       # 7: Posterior, constants moved
+        {"op": "cond", "i": 6, "names": ["y"], "k": 2, "makes": True},            # 8: still a joint
+        {"op": "cond", "i": 8, "names": ["x"], "k": 0, "makes": True},            # 9: reduces to l
+        {"op": "logd", "i": 6, "names": ["l", "x", "y"], "k": 0, "makes": False},
+        {"op": "logd", "i": 8, "names": ["l", "x"], "k": 0, "makes": False},
+        {"op": "logd", "i": 7, "names": ["x"], "k": 2, "makes": False},
     ]})
     # distribution conditioned, likelihood conditioned, names
     P.append({"graph": "hier", "variant": 1, "n0": 6, "ops": [
